@@ -454,38 +454,43 @@ const verifC16NOps = 16
 func verifC16Op(op int, cs *connState, f verifFidSet) func() {
 	switch op {
 	case 0:
-		return func() { cs.handle(&twalk{fid: f.dir, newFID: f.newBase, Names: []string{"f"}}) }
+		return func() { verifC16Reply(cs.handle(&twalk{fid: f.dir, newFID: f.newBase, Names: []string{"f"}})) }
 	case 1:
-		return func() { cs.handle(&twalk{fid: 1, newFID: f.newBase + 1, Names: []string{"d", "f"}}) }
+		return func() { verifC16Reply(cs.handle(&twalk{fid: 1, newFID: f.newBase + 1, Names: []string{"d", "f"}})) }
 	case 2:
-		return func() { cs.handle(&twalk{fid: f.file, newFID: f.newBase + 2}) }
+		return func() { verifC16Reply(cs.handle(&twalk{fid: f.file, newFID: f.newBase + 2})) }
 	case 3:
-		return func() { cs.handle(&tlcreate{fid: f.dir, Name: "n", OpenFlags: ReadWrite, Permissions: 0644}) }
+		return func() { verifC16Reply(cs.handle(&tlcreate{fid: f.dir, Name: "n", OpenFlags: ReadWrite, Permissions: 0644})) }
 	case 4:
-		return func() { cs.handle(&tunlinkat{Directory: f.dir, Name: "f"}) }
+		return func() { verifC16Reply(cs.handle(&tunlinkat{Directory: f.dir, Name: "f"})) }
 	case 5:
-		return func() { cs.handle(&trenameat{OldDirectory: f.dir, OldName: "f", NewDirectory: f.dir, NewName: "r"}) }
+		return func() { verifC16Reply(cs.handle(&trenameat{OldDirectory: f.dir, OldName: "f", NewDirectory: f.dir, NewName: "r"})) }
 	case 6:
-		return func() { cs.handle(&trenameat{OldDirectory: f.dir, OldName: "f", NewDirectory: f.other, NewName: "x"}) }
+		return func() { verifC16Reply(cs.handle(&trenameat{OldDirectory: f.dir, OldName: "f", NewDirectory: f.other, NewName: "x"})) }
 	case 7:
-		return func() { cs.handle(&trename{fid: f.file, Directory: f.other, Name: "y"}) }
+		return func() { verifC16Reply(cs.handle(&trename{fid: f.file, Directory: f.other, Name: "y"})) }
 	case 8:
-		return func() { cs.handle(&tremove{fid: f.file}) }
+		return func() { verifC16Reply(cs.handle(&tremove{fid: f.file})) }
 	case 9:
-		return func() { cs.handle(&tclunk{fid: f.file}) }
+		return func() { verifC16Reply(cs.handle(&tclunk{fid: f.file})) }
 	case 10:
-		return func() { cs.handle(&tclunk{fid: f.openFile}) }
+		return func() { verifC16Reply(cs.handle(&tclunk{fid: f.openFile})) }
 	case 11:
-		return func() { cs.handle(&tread{fid: f.openFile, Offset: 0, Count: 4}) }
+		return func() { verifC16Reply(cs.handle(&tread{fid: f.openFile, Offset: 0, Count: 4})) }
 	case 12:
-		return func() { cs.handle(&tgetattr{fid: f.file, AttrMask: AttrMaskAll}) }
+		return func() { verifC16Reply(cs.handle(&tgetattr{fid: f.file, AttrMask: AttrMaskAll})) }
 	case 13:
 		// fid-replacing walk: newfid is already bound (to the file)
-		return func() { cs.handle(&twalk{fid: f.dir, newFID: f.file, Names: []string{"f"}}) }
+		return func() { verifC16Reply(cs.handle(&twalk{fid: f.dir, newFID: f.file, Names: []string{"f"}})) }
 	case 14:
 		return func() { cs.stop() }
 	}
-	return func() { cs.handle(&tmkdir{Directory: f.other, Name: "q", Permissions: 0755}) }
+	return func() { verifC16Reply(cs.handle(&tmkdir{Directory: f.other, Name: "q", Permissions: 0755})) }
+}
+
+// verifC16Reply records what the client of this request observes.
+func verifC16Reply(r message) {
+	verifEvent("reply", int(r.typ()), int(verifErrnoOf(r)))
 }
 
 // VerifH_C16_Pairs: two concurrent requests (or a request and the teardown of
@@ -525,6 +530,19 @@ func VerifH_C16_Pairs() {
 			return
 		}
 		csB, fb = cs1, b
+	}
+	if rel == 3 {
+		// isolation: A works in /d on connection 1, B in /e on connection 2
+		// (disjoint fids, disjoint subtrees); only operations that stay inside
+		// their subtree
+		okA := opA <= 5 || (opA >= 8 && opA <= 13)
+		okB := opB == 0 || opB == 2 || opB == 3 || opB == 4 || opB == 5 || opB == 8 || opB == 9 || opB == 12
+		if !okA || !okB {
+			verifReach("skip")
+			return
+		}
+		fb = verifFidSet{dir: a.other, file: a.otherFile, openFile: a.otherFile, openDir: a.other, other: a.dir, otherFile: a.file, newBase: a.newBase}
+		verifReach("disjoint-pair")
 	}
 	fs.sched = true
 	ta, tb := verifC16Op(opA, cs1, a), verifC16Op(opB, csB, fb)
